@@ -465,6 +465,67 @@ def iterable_request_obligation(chk, tier, rng):
             chk.violation("request:one-shot-iterable:raises", "%s: %s" % (type(e).__name__, e), dict(keys=keys))
 
 
+def triple_strain_obligation(chk, tier, rng):
+    """The strain may be one triple (e1, e2, e3) -- the form the signature (`strain: tuple`), the docstring and the shipped tutorial use --
+    meaning the same fractions at every volume: same values as the (volumes x 3) table that repeats it."""
+    tk, sh, ns, c_ = PL.modules()
+    nv = 2
+    ctx, duck, _ = make_problem(2, 3, nv, "sym")
+    e = [ctx.var("tri_%d" % i, positive=True) for i in range(3)]
+    table = symarray([list(e) for _ in range(nv)])
+    keys = ["c11", "c12", "c44", "c15"]
+    fails = []
+    try:
+        ref, _ = PL.run_pipeline(duck, table, keys)
+        for label, form in (("tuple", tuple(e)), ("list", list(e)), ("1-D array", symarray(list(e)))):
+            proxy = NumpyProxy()
+            proxy.close_mode = "structural"
+
+            def fn():
+                with patched((tk, {"numpy": proxy}), (sh, {"numpy": proxy}), (ns, {"numpy": proxy})):
+                    tl = tk.PhononContributionTaskList(duck)
+                    tl.resolve(form, [c_(k[1:]) for k in keys])
+                    tl.calculate()
+                    return {"c%d%d" % k.v: v for k, v in tl.get_isothermal_results().items()}
+            try:
+                iso = X.run_single_path(fn, name="C04:triple", generic=True)
+            except SymError:
+                raise
+            except Exception as ex_:
+                fails.append("%s: raises %s: %s" % (label, type(ex_).__name__, str(ex_)[:80]))
+                continue
+            for k in keys:
+                got = numpy.broadcast_to(numpy.asarray(iso[k], dtype=object), numpy.asarray(ref["iso"][k], dtype=object).shape)
+                if not all(Sym.of(a).same(Sym.of(b)) or Z.prove_equal(Sym.of(a), Sym.of(b), name="C04:triple", timeout_ms=10000)[0] == "unsat"
+                           for a, b in zip(got.ravel().tolist(), numpy.asarray(ref["iso"][k], dtype=object).ravel().tolist())):
+                    fails.append("%s: %s differs from the repeated table" % (label, k))
+    except SymError as e_:
+        chk.inconclusive("strain triple", str(e_))
+        return
+    chk.obligation("strain given as one triple (tuple / list / 1-D array): the values of the table that repeats it at every volume", "unsat" if not fails else "sat",
+                   kind="identity", detail=fails[:3])
+    if fails:
+        d = PL.float_duck(2, 3, 3, 2, rng)
+        trip = (0.3, 0.33, 0.37)
+        with numpy.errstate(all="ignore"):
+            want, _, _ = PL.real_pipeline(d, numpy.tile(numpy.array(trip), (3, 1)), keys)
+            for label, form in (("tuple", trip), ("list", list(trip)), ("1-D array", numpy.array(trip))):
+                try:
+                    tl = tk.PhononContributionTaskList(d)
+                    tl.resolve(form, [c_(k[1:]) for k in keys])
+                    tl.calculate()
+                    got = {"c%d%d" % k.v: numpy.asarray(v) for k, v in tl.get_isothermal_results().items()}
+                    dev = max(float(numpy.nanmax(numpy.abs(numpy.broadcast_to(got[k], want[k].shape)[1:] - want[k][1:]))) for k in keys)
+                    if not dev <= 1e-12 * max(float(numpy.nanmax(numpy.abs(want[k][1:]))) for k in keys):
+                        chk.violation("strain:triple:%s" % label, "resolve(%s, keys) gives other values than the table repeating the triple (max deviation %.3g)" % (label, dev), dict(keys=keys))
+                        return
+                except Exception as ex_:
+                    chk.violation("strain:triple", "resolve((e1, e2, e3) given as a %s, keys) raises %s: %s -- the form the signature, the docstring and the shipped "
+                                  "tutorial (task_list.resolve((1/3, 1/3, 1/3), [...])) use" % (label, type(ex_).__name__, str(ex_)[:80]), dict(keys=keys, strain=list(trip)))
+                    return
+        chk.harness_error("strain triple: '%s' did not reproduce" % fails[0])
+
+
 def tighten(cond, rt, at):
     """Rebuild an allclose condition tree |a-b| <= at' + rt'|b| with the tight tolerances (same a, b)."""
     # the tree built by npproxy._close_cond:  or( and(y>=0, |d|<=at+rt*y), and(y<0, |d|<=at-rt*y) ) per element
@@ -531,6 +592,7 @@ def main():
     merge_tolerance(chk, tier, rng)
     reuse_obligation(chk, tier, rng)
     iterable_request_obligation(chk, tier, rng)
+    triple_strain_obligation(chk, tier, rng)
     chk.bound(shape="nq=2, np=3 (isotropy thorough: np=6, nv=2), nT=2 (T=0 and symbolic T)", request_sets="21 singletons, %s ordered pairs, "
               "full set in 3 orders, 9 crystal-system sets" % ("30 seeded" if tier == "quick" else "all 420"), path_budget=64)
     chk.stub("numpy.allclose in tasks.py: 'structural' cut (close iff structurally identical polynomials) for the identity obligations; "
